@@ -386,7 +386,9 @@ func lattice3(r *vlib.Run) {
 		}
 		fill(first, 2+rng.Intn(12), 0.4+0.6*rng.Float64(), true)
 		for k := rng.Intn(3); k > 0; k-- {
-			fill(first+20+rng.Intn(long-first-20), 1+rng.Intn(20), 0.3+0.7*rng.Float64(), false)
+			if room := long - first - 20; room > 0 {
+				fill(first+20+rng.Intn(room), 1+rng.Intn(20), 0.3+0.7*rng.Float64(), false)
+			}
 		}
 		m := ms[rng.Intn(len(ms))]
 		runPacked(c, "wide", [][]bool{pat}, dims, []method{ms[0], m})
